@@ -4,13 +4,21 @@ import (
 	"bytes"
 	"encoding/json"
 	"fmt"
+	"math/big"
 	"os"
 	"sort"
 	"strings"
 	"sync"
 
+	ethcmn "github.com/ethereum/go-ethereum/common"
+	ethtypes "github.com/ethereum/go-ethereum/core/types"
+
 	"github.com/Oneledger/protocol/action"
+	olvmact "github.com/Oneledger/protocol/action/olvm"
 	"github.com/Oneledger/protocol/serialize"
+
+	"olverif/internal/gen"
+	"olverif/internal/txb"
 
 	"olverif/internal/boxcli"
 	"olverif/internal/hist"
@@ -54,6 +62,39 @@ func reencodings(tx []byte) []encoding {
 		// field-name case (Go's decoder matches case-insensitively)
 		out = append(out, encoding{"field-case", bytes.Replace(bytes.Replace(tx, []byte(`"Signer":`), []byte(`"signer":`), -1), []byte(`"Signed":`), []byte(`"SIGNED":`), -1)})
 		out = append(out, encoding{"number-form", bytes.Replace(tx, []byte(`"gas":`), []byte(`"gas":0`), 1)})
+		// a field of the wrong JSON type: the decoder reports an error but has filled in everything else,
+		// and the field keeps its zero value — the same signed content when the original value was zero
+		out = append(out, encoding{"wrong-type-memo-number", bytes.Replace(tx, append([]byte(`"memo":`), m["memo"]...), []byte(`"memo":5`), 1)})
+		out = append(out, encoding{"wrong-type-memo-object", bytes.Replace(tx, append([]byte(`"memo":`), m["memo"]...), []byte(`"memo":{"a":1}`), 1)})
+		out = append(out, encoding{"wrong-type-extra-signature", bytes.Replace(tx, []byte(`"signatures":[`), []byte(`"signatures":[7,`), 1)})
+	}
+	return out
+}
+
+// olvmUnsignedVariants: the same OLVM transaction with the payload fields its signature does not cover
+// changed (type, access list): new bytes, new hash, still the sender's valid signature.
+func olvmUnsignedVariants(tx []byte) []encoding {
+	var out []encoding
+	for _, v := range []struct {
+		name string
+		typ  int64
+		al   *ethtypes.AccessList
+	}{{"olvm-unsigned-type-1", 1, nil}, {"olvm-unsigned-type-2", 2, nil}, {"olvm-unsigned-empty-access-list", 0, &ethtypes.AccessList{}}} {
+		st := &action.SignedTx{}
+		if json.Unmarshal(tx, st) != nil {
+			return nil
+		}
+		p := &olvmact.Transaction{}
+		if json.Unmarshal(st.Data, p) != nil {
+			return nil
+		}
+		p.TxType, p.AccessList = v.typ, v.al
+		d, err := json.Marshal(p)
+		if err != nil {
+			continue
+		}
+		st.Data = d
+		out = append(out, encoding{v.name, st.SignedBytes()})
 	}
 	return out
 }
@@ -68,7 +109,12 @@ func mustJSON(s string) []byte {
 // resubmission still passes the signature check the original passed.
 func sameSignedContent(a, b []byte) bool {
 	sa, sb := &action.SignedTx{}, &action.SignedTx{}
-	if serialize.GetSerializer(serialize.NETWORK).Deserialize(a, sa) != nil || serialize.GetSerializer(serialize.NETWORK).Deserialize(b, sb) != nil {
+	if serialize.GetSerializer(serialize.NETWORK).Deserialize(a, sa) != nil {
+		return false
+	}
+	// the node only logs a decoding error of the resubmission and goes on with whatever was decoded
+	// (a field of the wrong JSON type keeps its zero value), so the comparison does the same
+	if err := serialize.GetSerializer(serialize.NETWORK).Deserialize(b, sb); err != nil && len(sb.Signatures) == 0 {
 		return false
 	}
 	if !bytes.Equal(sa.RawTx.RawBytes(), sb.RawTx.RawBytes()) || len(sa.Signatures) != len(sb.Signatures) {
@@ -96,7 +142,7 @@ type replayOut struct {
 	err       error
 }
 
-func (wm *warm) replayProbe(base []byte, resub []byte, gap int, restart bool) *replayOut {
+func (wm *warm) replayProbe(base []byte, resub []byte, gap int, restart bool, between ...[]byte) *replayOut {
 	o := &replayOut{}
 	b, dir, err := wm.fork()
 	defer os.RemoveAll(dir)
@@ -144,7 +190,11 @@ func (wm *warm) replayProbe(base []byte, resub []byte, gap int, restart bool) *r
 		}
 	}
 	for k := 0; k < gap; k++ {
-		resp, ok := step(nil)
+		var mid [][]byte
+		if k == 0 {
+			mid = between // other people's transactions executed in between (e.g. a refund of the sender)
+		}
+		resp, ok := step(mid)
 		if !ok {
 			o.diedAt = "gap-block"
 			return o
@@ -209,12 +259,37 @@ func checkC05(tier string) int {
 		gap     int
 		restart bool
 		twin    hist.State
+		between [][]byte
 	}
 	var jobs []job
 	var jmu sync.Mutex
 	for _, wm := range warms {
 		wm := wm
 		bases := wm.freshBases(2)
+		// a transfer whose memo is empty (the zero value: what a decoder leaves behind for a field it rejects)
+		{
+			u := wm.w.Users[2%len(wm.w.Users)]
+			tx := txb.Tx(txb.Send(u.Addr, wm.w.Users[1].Addr, "OLT", fmt.Sprint(4000+wm.h)), txb.DefaultFee(), "", u)
+			bases = append(bases, hist.TxSpec{Kind: "SEND", Bytes: tx, Note: "transfer with an empty memo", Signers: []string{u.Addr.String()}})
+		}
+		// an EVM account that spends itself down to exactly zero, is funded again by somebody else, and then
+		// sees its old transaction resubmitted with an unsigned payload field changed
+		between := map[int][][]byte{}
+		if len(wm.w.EthUsers) > 0 {
+			e := wm.w.EthUsers[len(wm.w.EthUsers)-1]
+			bal := gen.BalanceOf(wm.state, e.Addr, "OLT")
+			cost := new(big.Int).Mul(big.NewInt(21000), big.NewInt(1000000000))
+			if bal.Cmp(cost) > 0 {
+				n, _ := gen.KeeperNonce(wm.state, e.Addr)
+				to := ethcmn.BytesToAddress(wm.w.Users[1].Addr)
+				v := new(big.Int).Sub(bal, cost)
+				tx := gen.OLVMTx(&gen.Ctx{W: wm.w}, e, wm.w.EthKeys[e.Addr.String()], n, &to, v, nil, 21000, "1000000000", gen.ChainIDOf(wm.w), fmt.Sprint(n))
+				u := wm.w.Users[0]
+				refund := txb.Tx(txb.Send(u.Addr, e.Addr, "OLT", "5"), txb.DefaultFee(), fmt.Sprintf("c05-refund-%d", wm.h), u)
+				between[len(bases)] = [][]byte{refund}
+				bases = append(bases, hist.TxSpec{Kind: "OLVM", Bytes: tx, Note: "EVM account spends its whole balance (refunded later by somebody else)", Signers: []string{e.Addr.String()}})
+			}
+		}
 		parallel(len(bases), 14, func(bi int) {
 			b := bases[bi]
 			// twins: base executed, then (gap+1) empty blocks
@@ -228,16 +303,26 @@ func checkC05(tier string) int {
 					restart bool
 				}{3, true})
 			}
+			if between[bi] != nil {
+				variants = []struct {
+					gap     int
+					restart bool
+				}{{2, false}, {3, true}}
+			}
 			for _, v := range variants {
-				tw := wm.replayProbe(b.Bytes, nil, v.gap, v.restart)
+				tw := wm.replayProbe(b.Bytes, nil, v.gap, v.restart, between[bi]...)
 				if tw.err != nil || tw.died || !tw.baseOK {
 					r.Count("bases_not_executable", 1)
 					return
 				}
 				r.Count("bases_executed", 1)
 				jmu.Lock()
-				for _, e := range reencodings(b.Bytes) {
-					jobs = append(jobs, job{wm, b, e, v.gap, v.restart, tw.state})
+				encs := reencodings(b.Bytes)
+				if b.Kind == "OLVM" {
+					encs = append(encs, olvmUnsignedVariants(b.Bytes)...)
+				}
+				for _, e := range encs {
+					jobs = append(jobs, job{wm, b, e, v.gap, v.restart, tw.state, between[bi]})
 				}
 				jmu.Unlock()
 			}
@@ -252,13 +337,19 @@ func checkC05(tier string) int {
 	var kmu sync.Mutex
 	parallel(len(jobs), 14, func(i int) {
 		j := jobs[i]
-		id := fmt.Sprintf("%d/%s/%s/gap%d/restart=%v", j.wm.h, j.base.Kind, j.enc.name, j.gap, j.restart)
-		if !sameSignedContent(j.base.Bytes, j.enc.bytes) {
+		id := fmt.Sprintf("%d/%s/%s/gap%d/restart=%v/%s", j.wm.h, j.base.Kind, j.enc.name, j.gap, j.restart, cut(j.base.Note, 30))
+		same := sameSignedContent(j.base.Bytes, j.enc.bytes)
+		if j.base.Kind == "OLVM" && strings.HasPrefix(j.enc.name, "olvm-unsigned") {
+			// the EVM-style signature covers nonce, recipient, value, gas, price, data and chain id only
+			st := &action.SignedTx{}
+			same = json.Unmarshal(j.enc.bytes, st) == nil && olvmAuthentic(j.wm, st)
+		}
+		if !same {
 			r.Count("encodings_not_equivalent_skipped", 1)
 			r.Case(id, false)
 			return
 		}
-		o := j.wm.replayProbe(j.base.Bytes, j.enc.bytes, j.gap, j.restart)
+		o := j.wm.replayProbe(j.base.Bytes, j.enc.bytes, j.gap, j.restart, j.between...)
 		if o.err != nil {
 			r.Diag(id + ": " + o.err.Error())
 			r.Case(id, false)
